@@ -70,14 +70,14 @@ func (s *Syncer[H]) networkHead(ctx context.Context) (H, bool, error) {
 	log.Warnw("attempting to request the most recent network head...")
 
 	// cap the max blocking time for the request call
-	ctx, cancel := context.WithTimeout(ctx, NetworkHeadRequestTimeout)
+	reqCtx, cancel := context.WithTimeout(ctx, NetworkHeadRequestTimeout)
 	defer cancel()
 
-	newHead, err := s.head.Head(ctx, header.WithTrustedHead[H](sbjHead))
+	newHead, err := s.head.Head(reqCtx, header.WithTrustedHead[H](sbjHead))
 	var verErr *header.VerifyError
 	if errors.As(err, &verErr) && verErr.SoftFailure {
 		// if we have a soft failure, try to bifurcate
-		err = s.incomingNetworkHead(ctx, newHead)
+		err = s.incomingNetworkHead(reqCtx, newHead)
 	}
 	if err != nil {
 		// if we have a non-expired subjective head, but failed to get a more recent network head
@@ -90,7 +90,7 @@ func (s *Syncer[H]) networkHead(ctx context.Context) (H, bool, error) {
 			sbjHead.Height(),
 		)
 
-		return sbjHead, false, nil
+		return s.latestSubjective(ctx, sbjHead), false, nil
 	}
 	// still check if even the newly requested head is not recent
 	if recent, timeDiff = isRecent(
@@ -111,7 +111,7 @@ func (s *Syncer[H]) networkHead(ctx context.Context) (H, bool, error) {
 
 	if newHead.Height() <= sbjHead.Height() {
 		// nothing new, just return what we have already
-		return sbjHead, false, nil
+		return s.latestSubjective(ctx, sbjHead), false, nil
 	}
 	// set the new head as subjective, skipping expensive verification
 	// as it was already verified by the Exchange.
@@ -123,6 +123,16 @@ func (s *Syncer[H]) networkHead(ctx context.Context) (H, bool, error) {
 		newHead.Height(),
 	)
 	return newHead, true, nil
+}
+
+// latestSubjective returns the current subjective head if it moved past the given one while the
+// network head request was in flight (e.g. through gossip), so that an older head is never reported
+// after a newer one.
+func (s *Syncer[H]) latestSubjective(ctx context.Context, sbjHead H) H {
+	if cur, err := s.localHead(ctx); err == nil && cur.Height() > sbjHead.Height() {
+		return cur
+	}
+	return sbjHead
 }
 
 // subjectiveHead returns the highest known non-expired subjective Head.
